@@ -199,3 +199,14 @@ m("c01-orphan-value-str", "C01", "daemon/runners/base_runner.py", "        self.
 m("c01-cause-dropped", "C01", "daemon/runners/meta_runner.py", 'raise RuntimeError("background task failed") from err', 'raise RuntimeError("background task failed: %s" % err) from None')
 m("c01-thread-failure-only-first-thread", "C01", "daemon/runners/thread_runner.py", "        self.asyncio_loop.call_soon_threadsafe(self._set_failure, failure)", "        if not isinstance(failure, OrphanedReturn) or failure.value:\n            self.asyncio_loop.call_soon_threadsafe(self._set_failure, failure)")
 m("c01-service-run-unmonitored", "C01", "daemon/runners/service.py", "            runner.register_payload(service.run, flavour=self.flavour)", "            runner.register_payload(service.run if self.flavour is not threading else (lambda: service.run() and None), flavour=self.flavour)")
+# ---- C13
+m("c13-config-not-held", "C13", "daemon/core/main.py", "    with load(path):\n        # sleep indefinitely to wait until the runtime is aborted\n        await asyncio.sleep(float(\"inf\"))",
+  "    with load(path):\n        pass\n    import gc\n    gc.collect()\n    await asyncio.sleep(float(\"inf\"))")
+m("c13-load-outside-loop", "C13", "daemon/core/main.py", "    runtime.adopt(_load_services, configuration, flavour=asyncio)\n    runtime.accept()",
+  "    _held = load(configuration)\n    _held.__enter__()\n    runtime.accept()")
+m("c13-load-in-thread", "C13", "daemon/core/main.py", "    runtime.adopt(_load_services, configuration, flavour=asyncio)", "    import threading\n    runtime.adopt(lambda: asyncio.run(_load_services(configuration)), flavour=threading)")
+m("c13-cli-swallows-runtime-error", "C13", "daemon/core/main.py", "    options = CLI.parse_args()\n    run(", "    options = CLI.parse_args()\n    try:\n        _run_guarded(options)\n    except RuntimeError:\n        pass\n\n\ndef _run_guarded(options):\n    run(")
+m("c13-unknown-extension-ignored", "C13", "daemon/core/config.py", "        raise ValueError(\n            \"Unknown configuration extension: %r\" % os.path.splitext(config_path)[1]\n        )", "        c = None")
+m("c13-sigint-exit-1", "C13", "daemon/runners/meta_runner.py", "        except KeyboardInterrupt:\n            self._logger.info(\"runner interrupted\")", "        except KeyboardInterrupt:\n            self._logger.info(\"runner interrupted\")\n            raise SystemExit(1)")
+m("c13-services-started-twice", "C13", "daemon/runners/service.py", "            self._started = True\n            runner.register_payload(service.run, flavour=self.flavour)", "            self._started = True\n            runner.register_payload(service.run, flavour=self.flavour)\n            if self.flavour is threading:\n                runner.register_payload(service.run, flavour=self.flavour)")
+m("c13-pyconfig-module-dropped", "C13", "daemon/config/python.py", "    sys.modules[module_name] = module\n    spec.loader.exec_module(module)\n    return module", "    spec.loader.exec_module(module)\n    module.__dict__.clear()\n    return None")
